@@ -1636,6 +1636,7 @@ def preprocess_arg(arg: ColExpr, table: Table, *, agg_is_window: bool = True) ->
             # a union or a subquery may have changed the type of the column since
             # the reference was taken
             new._dtype = table._cache.cols[expr._uuid]._dtype
+            new._ftype = table._cache.cols[expr._uuid]._ftype
         if (
             agg_is_window
             and isinstance(expr, ColFn)
